@@ -486,24 +486,34 @@ Definition obs_equiv (U KS : list N) (a b : obs) : bool :=
                        && set_eqb N.eqb (rowd u (o_de a)) (rowd u (o_de b))) U
   && forallb (fun kd => set_eqb N.eqb (rowd kd (o_fbk a)) (rowd kd (o_fbk b))) KS.
 
+(* the very same edge descriptors - keys with their file versions, kind and ORDINAL - are
+   listed for every base (a no-op must not give an existing edge a new incarnation) *)
+Definition edges_identical (U : list N) (a b : obs) : bool :=
+  forallb (fun u => set_eqb edesc_eqb (rowd u (o_edges a)) (rowd u (o_edges b))) U.
+
+(* "changes nothing": the same answers and the same edge descriptors *)
+Definition obs_same (U KS : list N) (a b : obs) : bool :=
+  obs_equiv U KS a b && edges_identical U a b.
+
 (* clauses tied to the op just executed: removing a node removes it and every edge
    touching it; a (re-)added node is present under the version given; re-inserting an
-   existing node or edge changes nothing *)
+   existing node or edge - AddEdge of a (from, kind, to) that is there, WHATEVER metadata the
+   repeated call carries - changes nothing, the ordinals of the listed edges included *)
 Definition direct_ok (U KS : list N) (prev : obs) (o : op) (cur : obs) : bool :=
   match o with
   | RemoveNode k =>
       negb (node_listed (k_base k) cur)
       && (if node_listed (k_base k) prev then negb (touches_listed (k_base k) cur)
-          else obs_equiv U KS prev cur)       (* removing an absent node is a no-op *)
+          else obs_same U KS prev cur)       (* removing an absent node is a no-op *)
   | AddNode _ k =>
       node_listed_ver (k_base k) (k_ver k) cur
-      && (if node_listed_ver (k_base k) (k_ver k) prev then obs_equiv U KS prev cur else true)
+      && (if node_listed_ver (k_base k) (k_ver k) prev then obs_same U KS prev cur else true)
   | AddStruct k _ | AddField k _ _ => node_listed_ver (k_base k) (k_ver k) cur
   | AddBuiltin k _ =>
       node_listed (k_base k) cur
-      && (if node_listed (k_base k) prev then obs_equiv U KS prev cur else true)
+      && (if node_listed (k_base k) prev then obs_same U KS prev cur else true)
   | AddEdge f t kind =>
-      if edge_listed (k_base f) kind (k_base t) prev then obs_equiv U KS prev cur else true
+      if edge_listed (k_base f) kind (k_base t) prev then obs_same U KS prev cur else true
   | _ => true
   end.
 
